@@ -40,7 +40,7 @@ CONSTANTS Carriers, Schemes, Users, HostShapes, Roots, Paths, Queries, Frags,  \
 AllCarriers   == {"iframe", "iframeTid", "objData", "objParam", "bq", "bqNoClass", "bqNoAnchor", "bqBare"}
 AllSchemes    == {"http", "https", "schemeRel", "relPath", "absPath"}
 AllUsers      == {"none", "plain", "hostlike"}
-AllHostShapes == {"root", "www", "deep", "parent", "suffixEvil", "prefixEvil", "dashEvil", "other"}
+AllHostShapes == {"root", "www", "deep", "parent", "suffixEvil", "prefixEvil", "prefix1", "dashEvil", "other"}
 AllRoots      == {"youtube", "nocookie", "vimeo", "twitter"}
 AllQueries    == {"none", "plain", "hostlike"}
 AllFrags      == {"none", "plain", "hostlike"}
@@ -79,6 +79,7 @@ HostLabels(shape, r) ==
       [] shape = "parent"     -> Tail(R)                                         \* vimeo.com (for player.vimeo.com)
       [] shape = "suffixEvil" -> R \o <<"evil", "example">>                      \* youtube.com.evil.example
       [] shape = "prefixEvil" -> <<"evil" \o R[1]>> \o Tail(R)                   \* evilyoutube.com
+      [] shape = "prefix1"    -> <<"x" \o R[1]>> \o Tail(R)                      \* xyoutube.com: one character in front
       [] shape = "dashEvil"   -> SubSeq(R, 1, Len(R) - 1) \o <<R[Len(R)] \o "-evil", "example">>  \* youtube.com-evil.example
       [] shape = "other"      -> <<"evil", "example">>                           \* the name only elsewhere in the URL
 
